@@ -693,7 +693,23 @@ pub fn parse_case(line: &str) -> Case {
         trail,
         pid: n_ops,
         macro_sched: if f.get("macro").map(|x| *x == "1").unwrap_or(false) {
-            Some(if f["sched"] == "-" { vec![] } else { f["sched"].split(',').map(|x| x.parse().unwrap()).collect() })
+            Some(if f["sched"] == "-" {
+                vec![]
+            } else {
+                // picks, optionally run-length encoded as <thread>x<count>
+                let mut v: Vec<usize> = vec![];
+                for tok in f["sched"].split(',') {
+                    match tok.find('x') {
+                        Some(i) => {
+                            let t: usize = tok[..i].parse().unwrap();
+                            let n: usize = tok[i + 1..].parse().unwrap();
+                            v.extend(std::iter::repeat(t).take(n));
+                        }
+                        None => v.push(tok.parse().unwrap()),
+                    }
+                }
+                v
+            })
         } else {
             None
         },
